@@ -333,7 +333,8 @@ template <class H> static void hash_case(int a, const char *name)
         if (memcmp(exp, g2, 32)) { char k[64]; snprintf(k, sizeof(k), "cpp:%s:reset", name); vf_violation("C17", k, "\"inlen\":%zu", inlen); }
         break; }
     }
-    { char k[64]; snprintf(k, sizeof(k), "cpp:%s:how%d", name, how); vf_eq("C17", k, "digest", got, exp, 32, "\"inlen\":%zu", inlen); }
+    { char k[64]; snprintf(k, sizeof(k), "cpp:%s:how%d", name, how); vf_eq("C17", k, "digest", got, exp, 32, "\"inlen\":%zu", inlen);
+      vf_eq("C03", k, "digest through the C++ class (hash.h) vs the specification", got, exp, 32, "\"inlen\":%zu", inlen); }
     vf_out(got, 32);
     vf_distinct("cpp|%s|how%d", name, how);
 }
@@ -370,7 +371,8 @@ template <class X, size_t N> static void xof_case(int a, const char *name)
     }
     delete x;
     { char k[80]; snprintf(k, sizeof(k), "cpp:%s<%zu>:ctor%d:how%d", name, (size_t)N, ctor, how);
-      vf_eq("C17", k, "xof output", got.data(), exp.data(), outlen, "\"inlen\":%zu,\"outlen\":%zu,\"namelen\":%zu,\"customlen\":%zu", inlen, outlen, fl, customlen); }
+      vf_eq("C17", k, "xof output", got.data(), exp.data(), outlen, "\"inlen\":%zu,\"outlen\":%zu,\"namelen\":%zu,\"customlen\":%zu", inlen, outlen, fl, customlen);
+      vf_eq("C03", k, "xof output through the C++ template (xof.h) vs the specification", got.data(), exp.data(), outlen, "\"inlen\":%zu,\"outlen\":%zu,\"namelen\":%zu,\"customlen\":%zu", inlen, outlen, fl, customlen); }
     vf_out(got.data(), outlen);
     vf_distinct("cpp|%s<%zu>|ctor%d|how%d", name, (size_t)N, ctor, how);
 }
@@ -408,6 +410,7 @@ int main(int argc, char **argv)
         size_t which = idx % NCASES;
         if (!vf_mine(&a, idx)) continue;
         if (a.arg && !strcmp(a.arg, "ciphers") && which >= 12) continue;
+        if (a.arg && !strcmp(a.arg, "hashes") && which < 12) continue;
         rng_seed(&r, a.seed ^ 0xc99, idx);
         vf_case_begin(idx);
         CASES[which](idx);
